@@ -51,7 +51,9 @@ def tier_from_args(argv):
     t = os.environ.get('VERIF_TIER', 'quick')
     if '--tier' in argv:
         t = argv[argv.index('--tier') + 1]
-    return t if t in ('quick', 'thorough') else 'quick'
+    t = t if t in ('quick', 'thorough') else 'quick'
+    os.environ['VERIF_TIER'] = t       # coq_check adds the coqchk pass in the thorough tier
+    return t
 
 # ---------------------------------------------------------------- scratch
 _scratch = []
@@ -189,6 +191,15 @@ def coq_check(prop):
     res['own_axioms'] = sorted(a for a in axioms if a.startswith('LCDB.') or '.' not in a)
     res['print_assumptions'] = out[-4000:]
     res['ok'] = ok and r.returncode == 0 and not res['forbidden'] and not res['own_axioms'] and len(res['theorems']) > 0
+    if os.environ.get('VERIF_TIER') == 'thorough' and res['ok']:
+        # independent re-check of the compiled theorem file and everything it depends on (coqchk), with its axiom list
+        c = subprocess.run(['timeout', '3000', 'coqchk', '-o', '-silent', '-Q', 'theories', 'LCDB', 'LCDB.Properties_%s' % prop],
+                           cwd=COQ, capture_output=True, text=True)
+        txt = c.stdout + c.stderr
+        m = re.search(r'\* Axioms:(.*?)\n\s*\n\* Constants', txt, re.S)
+        res['coqchk'] = {'exit': c.returncode, 'axioms': (m.group(1).strip() if m else '?'), 'summary': txt[-1200:]}
+        if c.returncode != 0 or not m or m.group(1).strip() != '<none>' or 'type-in-type: <none>' not in txt or 'assumed: <none>' not in txt:
+            res['ok'] = False; res['log'] += '\ncoqchk: ' + txt[-1500:]
     res['wall_s'] = round(time.time() - t0, 2)
     shutil.rmtree(sd, ignore_errors=True)
     return res
@@ -286,6 +297,9 @@ class Report:
             'model is hand-written and pinned to the LevelDB format standard; tied to /repo by the correspondence runs counted in this file',
         ]
         self.cov['print_assumptions'] = pr.get('print_assumptions', '')[-1500:]
+        if pr.get('coqchk'):
+            self.cov['coqchk'] = pr['coqchk']
+            self.cov['trusted_base'].append('coqchk -o (independent checker) on this theorem file and all its dependencies: exit %s, axioms %s' % (pr['coqchk']['exit'], pr['coqchk']['axioms']))
         if not pr['ok']:
             self.cov['proof_log'] = pr['log'][-1500:] + ' forbidden=' + repr(pr['forbidden']) + ' own_axioms=' + repr(pr['own_axioms'])
 
@@ -329,17 +343,26 @@ class Report:
         json.dump(ev, open(os.path.join(evd, '%s.json' % self.prop), 'w'), indent=1)
         return 1 if self.violations else 0
 
-def diff_cases(rep, cases, c_out, m_out, what, classify=None, max_report=3):
+def diff_cases(rep, cases, c_out, m_out, what, classify=None, max_report=3, failing=None, correspondence=None):
     """Compare C and model outputs line by line; any difference is a K1 violation
-    (the model is the format standard).  Returns number of mismatches."""
+    (the model is the format standard).  Returns number of mismatches.
+    failing: optional set of case indices on which a property-level oracle (evaluated on the implementation's own
+    output) fails too. When given, a mismatch outside that set is a broken CORRESPONDENCE only (the model's theorems
+    no longer speak about this code, but no input was found on which the property itself fails): it is still
+    reported, naming the correspondence, with the VIOLATION line ending in no-failing-input-found."""
     bad = 0
     for i, (c, m) in enumerate(zip(c_out, m_out)):
         if c != m:
             bad += 1
             if bad <= max_report:
                 sig = classify(cases[i], c, m) if classify else None
-                rep.violation({'kind': 'K1-differential', 'what': what, 'case': cases[i][:20000],
-                               'implementation': c[:20000], 'model': m[:20000]}, signature=sig)
+                obj = {'kind': 'K1-differential', 'what': what, 'case': cases[i][:20000],
+                       'implementation': c[:20000], 'model': m[:20000]}
+                sfx = ''
+                if failing is not None and i not in failing:
+                    sfx = 'no-failing-input-found'
+                    obj['correspondence_that_no_longer_checks'] = correspondence or what
+                rep.violation(obj, signature=sig, suffix=sfx)
     return bad
 
 # ---------------------------------------------------------------- K1 driver
